@@ -69,6 +69,8 @@ def sessions(emb):
         'raise-at-open': var(routes=[{'symbol': 'BTC-USDT', 'timeframe': '1m', 'spec': spec(tick, unit, **{'raise': 'on_open_position'})}]),
         'raise-mid': var(routes=[{'symbol': 'BTC-USDT', 'timeframe': '1m', 'spec': spec(tick, unit, enter={'when': {'at': [0]}, 'legs': [[1, 0]]}, on_open={'sl': 'all', 'tp': 'all', 'sl_d': 30, 'tp_d': 30}, **{'raise': {'at': 6}})}]),
         'raise-last': var(routes=[{'symbol': 'BTC-USDT', 'timeframe': '1m', 'spec': spec(tick, unit, enter={'when': {'at': [0]}, 'legs': [[1, 0]]}, on_open={'sl': 'all', 'tp': 'all', 'sl_d': 30, 'tp_d': 30}, **{'raise': {'at': 13}})}]),
+        # aborts in the very step that submitted a market order: the order is still waiting in the engine's queue
+        'raise-after-entry': var(routes=[{'symbol': 'BTC-USDT', 'timeframe': '1m', 'spec': spec(tick, unit, enter={'when': {'at': [3]}, 'legs': [[1, 0]]}, **{'raise': {'after_at': 3}})}]),
         'margin-reject': var(balance=bal / 400, routes=[{'symbol': 'BTC-USDT', 'timeframe': '1m', 'spec': spec(tick, unit, enter={'when': {'at': [2]}, 'legs': [[5, 0]]})}]),
     }
     return out
